@@ -784,6 +784,30 @@ def _run_rendering(case, out):
                     f'table {tidx}: {diff[1]}'))
                 break
 
+    # ---- templates handed out belong to the caller: joining them IN PLACE (the documented way
+    # to merge texts / tables, cf. "also after a table has been ... joined") must not change what
+    # a later rendering of an equal result looks like
+    try:
+        for templ in representation(_build_result(case)):
+            if isinstance(templ, (TableTemplate, tmpl.TextTemplate)):
+                try:
+                    templ.join(templ.copy())
+                except Exception:      # pylint: disable=broad-except
+                    pass               # (joins that the template refuses are not the point here)
+        text_again = '\n'.join(Rst(representation).format_result(_build_result(case)))
+    except Exception as exc:
+        out.failures.append(Failure(
+            'render_raises', _raise_signature(exc, sigkind + '/after-join'),
+            f'{type(exc).__name__}: {exc}'[:300] + f' at {_where(exc)} [rendering again after '
+            f'an in-place join of the templates of an earlier rendering]'))
+    else:
+        out.labels.append('rendered-again-after-in-place-join')
+        if text_again != text:
+            out.failures.append(Failure(
+                'history', f'C12/history/in-place-join-leaks/{feat}',
+                'after joining in place the templates returned by an earlier representation, '
+                'an equal result is rendered differently'))
+
     # ---- (a) mark <=> false, per rendered result
     nested = inner_truth is not None and rep in ('fulltable', 'full')
     if nested:
